@@ -3,7 +3,7 @@
 Clock values and the repeated-deadline state machine are runtime quantities:
 not decided.  Claimed: structural clauses + the comparator tables.
 """
-from ..core import (AnalysisBroken, Inliner, canon, strip, last_member, must_pass, relpath, norm_cond, walk, forward)
+from ..core import (names_of, same_value, AnalysisBroken, Inliner, canon, strip, last_member, must_pass, relpath, norm_cond, walk, forward)
 from ..analyses import (is_call, holding, path_to, describe, exits_of, callback_kind, loops, innermost_loop,
                         delta_analysis, is_fail, must_pass_from_block)
 from .. import interp
@@ -280,7 +280,7 @@ def once(ctx):
                 return False if blk.succ[si] == h else s
             _, ev_in = forward(f, False, tr, lambda x, y: x and y, edge=edge)
             return ev_in
-        ev1 = per(lambda e: is_call(e, 'iv_timer_unregister') and canon(e['args'][0]) == obj, a)
+        ev1 = per(lambda e: is_call(e, 'iv_timer_unregister') and obj in names_of(e['args'][0]), a)
         ctx.ob('R-C04d', 'iv_run_timers:leaves-heap-through-unregister', bool(ev1.get((a['_b'], a['_i']))), loc=a['loc'],
                detail='iv_timer_unregister(%s) precedes the move to the expired batch' % obj, fn=f.q)
         # index = 0 stored after the add in the same iteration (state-discriminated holder predicate)
@@ -342,7 +342,7 @@ def deadline(ctx):
         elif isinstance(v, dict) and v.get('k') == 'addr' and last_member(v['e']) == ('iv_timer_', 'expires'):
             tv = canon(strip(v['e'])['base'])
             d = [x for x in s.events() if x['ev'] in ('decl', 'store') and (x.get('name') == tv or canon(x.get('lhs', {})) == tv)]
-            src = canon(d[0].get('init') or d[0].get('rhs')) if d else ''
+            src = canon(d[0].get('init') or d[0].get('rhs')) if d else tv
             okroot = src.endswith('first_leaf.child[1]') and any(a[0] == '!=' and a[2] == '0' and ('iv_state', 'num_timers') in a[3] for a in A)
     ctx.ob('R-C04e', 'soonest:heap-root-when-nonempty', okroot, loc=s.loc,
            detail='returns &heap[1]->expires on the num_timers != 0 edge', fn=s.q)
